@@ -143,6 +143,8 @@ impl<'a> ChainStylist<'a> {
 
     /// Create a Doc from IR and given styles.
     pub fn print_doc(self, sty: ChainStyle) -> ArenaDoc<'a> {
+        #[cfg(typstyle_verif)]
+        crate::verif::point("layout:chain");
         let arena = &self.printer.arena;
 
         let op_sep = if sty.space_around_op {
